@@ -107,6 +107,8 @@ FocusSet(L, req) ==
 \* records ISO makes mandatory are not left empty in generated *responses*
 RlOk(L, req, rl) == req \/ \A i \in 1..Len(L) : (L[i].t = "rest" /\ L[i].min > 0) => rl # "empty"
 
+SingleDtcKinds == {"ReportFirstTestFailedDTC", "ReportFirstConfirmedDTC",
+                   "ReportMostRecentTestFailedDTC", "ReportMostRecentConfirmedDTC"}
 \* (1) boundary classes of every field x suppress bit x record lengths x group counts
 AbsFields(k, L, req) ==
   {a \in
@@ -123,7 +125,9 @@ AbsFields(k, L, req) ==
      sa   : IF req /\ k = "WriteMemoryByAddress" THEN BOOLEAN ELSE {FALSE}] :
     /\ a.dup => a.gc >= 2
     /\ RlOk(L, req, a.rl)
-    /\ (~req /\ a.gc = 0) => (a.fo.i = 0 /\ ~HasMulti(L))}
+    /\ (~req /\ a.gc = 0) => (a.fo.i = 0 /\ ~HasMulti(L))
+    \* reportFirst/MostRecent...DTC answers carry at most one record
+    /\ (~req /\ k \in SingleDtcKinds) => a.gc <= 1}
 \* (2) address / size widths 1..15 x value classes, around the neutral case
 AbsMem(k, L, req) ==
   IF ~Has(L, "mem") THEN {}
